@@ -10,7 +10,7 @@ Local Open Scope list_scope.
 Definition appendish (d : dest) (r : rule) : bool :=
   negb (dest_eqb (r_dest r) d) ||
   match r_act r with
-  | AAppendConst _ | AAppend | AIgnore0 | AIgnore1 => true
+  | AAppendConst _ | AAppend | AIgnore0 | AIgnore1 | AIgnoreOpt => true
   | AStoreSplit _ _ | AExtendMatch _ _ _ => dest_eqb d DPasses   (* custom actions write _passes, not passes *)
   end.
 (* what rule r, given value v, appends to list d *)
@@ -42,14 +42,14 @@ Proof.
   unfold appendish, contrib, apply_rule. intros H.
   destruct (dest_eqb (r_dest r) d) eqn:Hd; cbn [negb orb] in H.
   - apply dest_eqb_eq in Hd. subst d.
-    destruct (r_act r) as [k| |sep fm|pfx fm ov| |]; try (rewrite app_nil_r; reflexivity).
+    destruct (r_act r) as [k| |sep fm|pfx fm ov| | |]; try (rewrite app_nil_r; reflexivity).
     + apply get_set_same.
     + apply get_set_same.
     + apply dest_eqb_eq in H. rewrite H. cbn [dest_eqb]. rewrite get_set_up, app_nil_r. rewrite <- H. reflexivity.
     + apply dest_eqb_eq in H. rewrite H. cbn [dest_eqb].
       destruct (ov && negb (smem (flag0 r) (n_ov n))); rewrite ?get_add_ov, get_set_up, app_nil_r, <- H; reflexivity.
   - rewrite app_nil_r.
-    destruct (r_act r) as [k| |sep fm|pfx fm ov| |]; try reflexivity.
+    destruct (r_act r) as [k| |sep fm|pfx fm ov| | |]; try reflexivity.
     + apply get_set_other. exact Hd.
     + apply get_set_other. exact Hd.
     + destruct (dest_eqb (r_dest r) DPasses); [apply get_set_up|apply get_set_other; exact Hd].
